@@ -15,6 +15,7 @@ import (
 	"github.com/bluenviron/mediacommon/v2/pkg/codecs/h264"
 	"github.com/bluenviron/mediacommon/v2/pkg/codecs/h265"
 	"github.com/bluenviron/mediacommon/v2/pkg/codecs/mpeg4audio"
+	"github.com/bluenviron/mediacommon/v2/pkg/codecs/opus"
 	"github.com/bluenviron/mediacommon/v2/pkg/codecs/vp8"
 	"github.com/bluenviron/mediacommon/v2/pkg/codecs/vp9"
 
@@ -216,11 +217,15 @@ func FromStream(desc *description.Session) (*catalog.Catalog, []SetupTrackFunc, 
 								return nil
 							}
 
+							pts := u.PTS
+
 							for _, pkt := range u.Payload.(unit.PayloadOpus) {
-								err := writeData(pkt, u.PTS)
+								err := writeData(pkt, pts)
 								if err != nil {
 									return err
 								}
+
+								pts += opus.PacketDuration2(pkt)
 							}
 							return nil
 						}
